@@ -245,10 +245,27 @@ def build(spec, ctx=None):
         data[c["name"]] = pd.Series(arr, index=idx, dtype=object if c["kind"] == "object" else arr.dtype)
     df = pd.DataFrame(data, index=idx)
     cls = sub_class() if spec["cls"] == "Sub" else Table
+    units = [c["unit"] for c in spec["cols"]]
+    kw = {"units": units}
+    if n == 0 and spec.get("units_mode") == "none":
+        kw = {}                                   # a zero-row table built without `units=`: nothing is registered
+    elif n == 0 and spec.get("units_mode") == "short":
+        kw = {"units": units[: len(units) // 2]}  # units for the first columns only
     with warnings.catch_warnings():
         warnings.simplefilter("ignore")
-        t = cls(df, name=spec["name"], destinations=set(spec["dests"]), units=[c["unit"] for c in spec["cols"]],
-                transposed=spec["transposed"])
+        t = cls(df, name=spec["name"], destinations=set(spec["dests"]), transposed=spec["transposed"], **kw)
+        for c in spec.get("df_added", []):        # columns added through the backing frame afterwards
+            arr = make_array(c)
+            t.df[c["name"]] = pd.Series(arr, index=idx, dtype=object if c["kind"] == "object" else arr.dtype)
+        # display attributes of the column register (not part of the header the statement speaks about)
+        from pdtable.table_metadata import ColumnFormat
+        cm = t.column_metadata
+        for c in spec["cols"]:
+            if c["name"] in cm:
+                if "display_unit" in c:
+                    cm[c["name"]].display_unit = c["display_unit"]
+                if "display_format" in c:
+                    cm[c["name"]].display_format = ColumnFormat(c["display_format"])
     t.metadata.origin = spec["origin"]
     via = spec.get("via")
     if via:
@@ -258,6 +275,8 @@ def build(spec, ctx=None):
             warnings.simplefilter("ignore")
             if via["how"] == "rewrap":
                 t = Table(t.df[list(via["order"])])           # column selection, facade re-created
+            elif via["how"] == "copywrap":
+                t = Table(t.df.copy())                        # a copy of the frame (register copied along), re-wrapped
             elif via["how"] == "inplace":
                 _ = t.units                                    # the header has been consulted before
                 for nm in via["order"]:                        # move each column to the end, in place
@@ -360,7 +379,8 @@ def ref_equal(a, b):
         return False
     # each column's own unit, looked up by column name (not the positional `units` list equals itself reads)
     ma, mb = a.column_metadata, b.column_metadata
-    if [ma[c].unit for c in a.column_names] != [mb[c].unit for c in b.column_names]:
+    unit_of = lambda m, c: m[c].unit if c in m else None      # zero-row tables may have unregistered columns
+    if [unit_of(ma, c) for c in a.column_names] != [unit_of(mb, c) for c in b.column_names]:
         return False
     if a.df.shape[0] != b.df.shape[0]:
         return False
@@ -394,6 +414,11 @@ def gen_spec(rng, small=False):
     ncol = rng.choice([0, 1, 2, 3, 4, 4, 6, 9])
     names = rng.sample(COLNAMES, ncol)
     cols = [gen_col(rng, nm, n, rng.choice(KINDS + ["object", "int", "float"])) for nm in names]
+    for c in cols:
+        if rng.random() < 0.1:
+            c["display_unit"] = rng.choice(["mm", "km"])
+        if rng.random() < 0.1:
+            c["display_format"] = rng.choice([2, ".3e"])
     if cols and n and rng.random() < 0.3:
         cols[0] = gen_col(rng, cols[0]["name"], n, "object")
         cols[0]["values"][rng.randrange(n)] = rng.choice([None, {"v": "nan"}, {"v": "nat"}, {"v": "na"}])
@@ -415,7 +440,7 @@ BIG_EXACT = [[2 ** 53, 1, 0], [2 ** 62, 2 ** 62, 1], [2 ** 62, 2 ** 62, 2 ** 62,
 MUTATIONS = ["identical", "name", "dests", "dests_reorder", "unit", "colname", "colorder", "cell", "dtype",
              "add_row", "del_row", "add_col", "del_col", "missing_flavour", "missing_dtype", "transposed", "origin",
              "rowswap", "number_type_cell", "subclass", "index", "non_table", "unit_swap", "resolution", "aware_vs_naive",
-             "dt_as_int"]
+             "dt_as_int", "display_one_side", "display_both", "copywrap"]
 
 
 def mutate(rng, spec, kind):
@@ -524,6 +549,21 @@ def mutate(rng, spec, kind):
             c["kind"] = "dt_cph" if c["kind"] == "dt_utc" else "dt_utc"      # the same instants in another time zone
             return s, True
         return None, None
+    if kind in ("display_one_side", "display_both"):
+        # display format / display unit of a column: not header, not cells -> equals must not look at them
+        disp = {"display_unit": rng.choice(["mm", "km", c["unit"]]), "display_format": rng.choice([2, 0, "14.3e", ".1f"])}
+        if rng.random() < 0.3:
+            disp.pop(rng.choice(list(disp)))
+        c.update(disp)
+        if kind == "display_both":
+            # the same display attributes on the base too — as two separately created objects
+            [x for x in spec["cols"] if x["name"] == c["name"]][0].update(copy.deepcopy(disp))
+        return s, True
+    if kind == "copywrap":
+        s["via"] = {"how": "copywrap"}
+        if rng.random() < 0.5:
+            c.update({"display_unit": "mm", "display_format": 3})
+        return s, True
     if kind == "resolution":
         # the same instants in a datetime column of another resolution ([s] / [ms] / [us] / [ns])
         def fits(v, unit):
@@ -805,7 +845,7 @@ def ladder_cases(rng, tier, seed):
 
 
 def cases(rng, tier, seed):
-    n = 1500 if tier == "thorough" else 85
+    n = 1500 if tier == "thorough" else 75
     idx = 0
     for rnd in range(n):
         base = gen_spec(rng)
@@ -814,6 +854,38 @@ def cases(rng, tier, seed):
             if m is None:
                 continue
             yield {"seed": seed, "index": idx, "mutation": kind, "expected": exp, "a": copy.deepcopy(base), "b": m}
+            idx += 1
+        # zero-row tables whose columns are (partly) missing from the column register: built without `units=`, with
+        # units for the first columns only, or with a column added through the backing frame
+        zb = gen_spec(rng)
+        while len(zb["cols"]) < 2:
+            zb = gen_spec(rng)
+        for c in zb["cols"]:
+            c["values"] = []
+            c.pop("display_unit", None), c.pop("display_format", None)
+        zb.update(nrows=0, index=None)
+        zmode = rng.choice(["none", "short", "added"])
+        if zmode == "added":
+            zb["df_added"] = [gen_col(rng, "zz_added", 0)]
+        else:
+            zb["units_mode"] = zmode
+        for kind in ("identical", "colname", "add_col", "del_col", "colorder", "name"):
+            m, exp = mutate(rng, zb, kind)
+            if m is None:
+                continue
+            yield {"seed": seed, "index": idx, "mutation": f"zero_rows_{zmode}:{kind}", "expected": exp,
+                   "a": copy.deepcopy(zb), "b": m}
+            idx += 1
+        if zmode == "added":
+            m = copy.deepcopy(zb)
+            m["df_added"][0]["name"] = "zz_other"
+            yield {"seed": seed, "index": idx, "mutation": "zero_rows_added:other_added_name", "expected": False,
+                   "a": copy.deepcopy(zb), "b": m}
+            idx += 1
+            m = copy.deepcopy(zb)
+            m["df_added"] = []
+            yield {"seed": seed, "index": idx, "mutation": "zero_rows_added:not_added", "expected": False,
+                   "a": copy.deepcopy(zb), "b": m}
             idx += 1
         # the same table reached by re-ordering the columns of an existing table's frame (column selection and
         # re-wrap; in-place moves after the header was consulted) versus tables written down directly
@@ -929,7 +1001,9 @@ def run(tier, seed, model_ok, translator, search=False):
                 "destinations / one unit in place through metadata, Column.unit and Table.units, compare the same "
                 "objects again, edit back, compare), tables reached by re-ordering the columns of an existing "
                 "table's frame (column selection + re-wrap, in-place moves after a consultation) against directly "
-                "written tables with the right and with the stale positional units, datetime columns of every "
+                "written tables with the right and with the stale positional units, columns with display units / display formats on one or both sides and copies of the frame "
+                "re-wrapped, zero-row tables with unregistered columns (no units=, short units list, column added "
+                "through the frame) differing in a column name or count, datetime columns of every "
                 "resolution ([s]/[ms]/[us]/[ns], years 1-9999, NaT) against the same instants in another resolution, as "
                 "tz-aware instants and as integer epoch counts, long tables on a size ladder (rows around 64 … 1024, "
                 "4096, 8192, 20001) differing in one cell at every ladder position -1/0/+1 and in the last row, "
